@@ -74,19 +74,18 @@ def c12_b(ctx):
     ex = ctx.ex(init)
     demanded = {}
     for r in ctx.stmts(init, ast.Raise):
-        for (t, pol, _) in ctx.guards(init, r):
-            if not pol or t[0] != 'bool' or t[1] != 'and':
+        metric = key = None
+        for (x, pol, _) in ctx.guards(init, r):
+            if not pol or x[0] == 'bool':
                 continue
-            metric = key = None
-            for x in t[2]:
-                m1 = match(x, pattern('distance == _m'))
-                m2 = match_any(x, ('_k not in kwargs.keys()', '_k not in kwargs'))
-                if m1 is not None and m1['m'][0] == 'const':
-                    metric = m1['m'][1]
-                if m2 is not None and m2['k'][0] == 'const':
-                    key = m2['k'][1]
-            if metric and key:
-                demanded[metric] = key
+            m1 = match(x, pattern('distance == _m'))
+            m2 = match_any(x, ('_k not in kwargs.keys()', '_k not in kwargs'))
+            if m1 is not None and m1['m'][0] == 'const':
+                metric = m1['m'][1]
+            if m2 is not None and m2['k'][0] == 'const':
+                key = m2['k'][1]
+        if metric and key:
+            demanded[metric] = key
     if len(demanded) < 3:
         ctx.undecided('expected three metric/argument demands, found {}'.format(demanded))
     fwd = None
